@@ -301,7 +301,7 @@ def corpus_grammars(run):
     import glob, os
     gs = sorted(glob.glob(os.path.join(run.repo, "example", "*", "*.bnf")) + glob.glob(os.path.join(run.repo, "internal", "test", "*", "*.bnf")))
     gs += sorted(glob.glob(os.path.join(os.path.dirname(os.path.dirname(__file__)), "carriers", "*.bnf")))
-    gs += sorted(glob.glob(os.path.join(os.path.dirname(os.path.dirname(__file__)), "corpus", "*.bnf")))
+    gs += sorted(g for g in glob.glob(os.path.join(os.path.dirname(os.path.dirname(__file__)), "corpus", "*.bnf")) if "backquote" not in g)
     return gs
 
 
@@ -401,16 +401,26 @@ PROPS["C01"] = {
 def sweep_tool(run, tool, srcdir, args_extra=()):
     """runs a sweep tool (lexref / lrref) against gocc built from the working tree; returns its JSON"""
     import common as C, expand, json, os
+    import hashlib
     gocc = expand.build_gocc(run)
     exe = C.ensure_tool(tool, srcdir)
     out = os.path.join(run.work, "%s-%s.json" % (tool, run.tier))
     cmd = [exe, "sweep", "-gocc", gocc, "-scope", run.tier, "-seed", str(run.seed), "-out", out] + list(args_extra)
+    # the sweep is a deterministic function of (tool, gocc binary, scope, seed): share it between the checks of one sandbox
+    key = hashlib.sha256(open(exe, "rb").read() + open(gocc, "rb").read() + (" ".join(cmd[4:6] + cmd[6:8] + list(args_extra))).encode()).hexdigest()[:24]
+    cpath = os.path.join(C.VERIF, ".cache", "sweep", "%s-%s.json" % (tool, key))
+    if os.path.exists(cpath) and not os.environ.get("VERIF_NO_CACHE"):
+        r = json.load(open(cpath))
+        r["cached"] = True
+        return r
     env = dict(C.GOENV, TMPDIR=run.work)
     rc, o = C.sh(cmd, cwd=run.work, env=env, timeout=6 * 3600)
     if not os.path.exists(out):
         raise C.EngineError("%s sweep failed (rc=%d):\n%s" % (tool, rc, o[-2000:]))
     r = json.load(open(out))
     r["cmd"] = " ".join(cmd)
+    os.makedirs(os.path.dirname(cpath), exist_ok=True)
+    json.dump(r, open(cpath, "w"))
     return r
 
 
@@ -596,4 +606,185 @@ PROPS["C15"] = {
     ],
     "technique": "translation validation of the checked-in LR(1) tables: per-cell obligations (least closed item annotation, action/goto agreement, production bijection by head and body, reduce-function text) evaluated completely; finite and exhaustive",
     "explanation": "Every one of the 2640 action cells and 1920 goto cells of the checked-in front-end tables is validated against the least LR(1) item annotation of spec/gocc2.ebnf (no state numbering assumed), the productions are in bijection by head and body with the spec (indices may differ), each ReduceFunc equals the spec action after $-rewriting, all states are reachable, no cell has two candidates and no row is a recovery state. With the trusted LR theorem the accepted token language is exactly that of the spec grammar.",
+}
+
+
+def c14_illformed(run):
+    """bounded: a hand-made corpus of ill-formed grammars, one per documented rule; each must end with a non-zero status"""
+    import expand, glob, os
+    gocc = expand.build_gocc(run)
+    viol, cases, samples = [], 0, []
+    for g in sorted(glob.glob(os.path.join(os.path.dirname(os.path.dirname(__file__)), "corpus", "illformed", "*.bnf"))):
+        d = os.path.join(run.work, "illformed", os.path.basename(g))
+        rc, o = run_gocc(run, gocc, g, [], d, timeout=30)
+        cases += 1
+        name = os.path.basename(g)[:-4]
+        if rc == 0:
+            viol.append({"id": "ill-formed grammar accepted: " + name, "what": "gocc exits with status 0 on corpus/illformed/%s.bnf" % name, "input": {"grammar_file": g, "grammar": open(g).read()}})
+        samples.append({"grammar": name, "status": rc})
+    return {"name": "ILLFORMED corpus: every ill-formed grammar is rejected (bounded)", "cases": cases, "evaluations": cases, "violations": viol, "samples": samples[:6]}
+
+
+def c14_files(run):
+    import os
+    fs = [g for g in corpus_grammars(run) if "illformed" not in g and not g.endswith("t2.bnf")]
+    fs.append(os.path.join(run.repo, "spec", "gocc2.ebnf"))
+    return ",".join(fs)
+
+
+PROPS["C14"] = {
+    "level": "other",
+    "bounded": [{
+        "name": "FRONTEND-MUT", "stands_in_for": ["parser.(*Parser).Parse", "parser.(*Parser).Error"],
+        "overlay": {"{repo}/internal/frontend/parser/verif_frontend_test.go": "harness/frontend/verif_frontend_test.go"},
+        "pkg": "./internal/frontend/parser", "run": "TestVerifFrontend",
+        "env": {"VERIF_FRONTEND": lambda run: "files:%d:%s" % (3 if run.tier == "quick" else 1, c14_files(run))}, "replay_env": "VERIF_FRONTEND",
+    }],
+    "extra": [c14_illformed],
+    "trusted_base": COMMON_TRUSTED,
+    "assumptions": [
+        "bounded: single-token deletion, duplication, insertion and substitution at the sampled positions of the corpus grammars (every 3rd position in the quick tier, every position in the thorough tier); an accepted run must have consumed every scanned token and shifted no phantom error symbol",
+        "the documented rules (undefined production or regular definition, duplicate definitions, empty alternative, token-level errors) are represented by one hand-made grammar each in corpus/illformed",
+    ],
+    "explanation": "Deductive part: the generated parser template, whose Error/Parse contracts are proved (C07), and gocc's own parser share the recovery code; the front-end contracts (no recovery state in the checked-in tables, hence Error never recovers and Parse accepts only when every scanned token was shifted) are stated on internal/frontend/parser and discharged by govc where the engine reaches them; the bounded token-mutation run and the ill-formed corpus decide the rest and are labelled bounded.",
+}
+
+
+AST_CONTRACTS = "{repo}/internal/ast/zz_contracts_verif.go"
+
+
+def c13_deadfield(run):
+    import common as C, json, os
+    tool = C.ensure_tool("framecheck", "tools/framecheck")
+    out = os.path.join(run.work, "deadfield.json")
+    rc, o = C.sh([tool, "deadfield", "-dir", run.repo, "-pkgs", ".", "-type", "ast.LexCharLit", "-field", "Lit", "-out", out], cwd=run.repo)
+    if rc == 2 or not os.path.exists(out):
+        raise C.EngineError("framecheck deadfield failed:\n" + o[-2000:])
+    r = json.load(open(out))
+    v = [{"id": f["obligation"] + " " + f["pos"], "obligation": f["obligation"], "what": f["what"], "pos": f["pos"], "input": None} for f in r.get("findings") or []]
+    return {"name": "FRAME dead field ast.LexCharLit.Lit (the source spelling of a character literal is never read)", "obligations": r["obligations"], "discharged": r["discharged"], "violations": v,
+            "samples": [{"frame": x} for x in r.get("samples") or []], "backend": "FRAME", "cases": 1}
+
+
+def c13_respell(run):
+    import respell, sys
+    return respell.respell_check(run, sys.modules[__name__])
+
+
+PROPS["C13"] = {
+    "level": "other",
+    "govc": [{"dir": "{repo}", "pkgs": ["./internal/ast"], "contracts": [AST_CONTRACTS], "prop": "C13"},
+             {"dir": "{repo}", "pkgs": ["./internal/util"], "contracts": [STDLIB, UTIL_CONTRACTS], "prop": "C13"}],
+    "extra": [c13_deadfield, c13_respell],
+    "trusted_base": COMMON_TRUSTED,
+    "assumptions": [
+        "layout invariance (white space, line breaks, // and /* */ comments at token boundaries) is a relational two-run property of the hand-written scanner; the function-at-a-time engine does not state it: it is decided by the bounded respelling run only (every sampled single insertion of eight layout strings at token boundaries, one all-boundaries variant, every respelling of the sampled character literals, both quoting styles) on the grammar corpus",
+        "util.RuneToString is a function of the code point only (trusted contract), util.LitToRune's value depends only on the literal's bytes and equals Go's value of the literal (proved under C20)",
+    ],
+    "explanation": "Deductive part: a character literal is stored by value (LitToRune, proved to be Go's value of the literal whatever its spelling) and its rendering is the canonical RuneToString of that value; the field keeping the source spelling is never read anywhere in the module (dead-field frame obligation); NewStringLit keeps exactly the bytes strictly between the first and last byte of the token for either quoting style. Layout invariance and the end-to-end byte-identity are decided by the bounded respelling run, labelled bounded.",
+}
+
+
+def c09_matrix(run):
+    """bounded/finite: flag subsets x output directory x -p; status 0 must mean: every required file written under the
+    output directory, import paths resolve, packages compile"""
+    import expand, itertools, os, common as C
+    gocc = expand.build_gocc(run)
+    base = os.path.dirname(os.path.dirname(__file__))
+    grammars = [os.path.join(base, "carriers", "conflict.bnf"), os.path.join(base, "carriers", "lexonly.bnf"), os.path.join(base, "corpus", "hostile.bnf"), os.path.join(base, "corpus", "hostile_backquote.bnf")]
+    flags = ["-a", "-zip", "-no_lexer", "-debug_lexer", "-debug_parser", "-v"]
+    configs = []
+    for bits in itertools.product([0, 1], repeat=len(flags)):
+        for o in (".", "sub", "sub/dir"):
+            for pflag in (False, True):
+                configs.append(([f for f, b in zip(flags, bits) if b], o, pflag))
+    if run.tier == "quick":
+        # deterministic sample: every flag on and off with every output directory
+        configs = [c for i, c in enumerate(configs) if i % 17 == (run.seed % 17)][:24]
+    viol, cases, samples = [], 0, []
+    from concurrent.futures import ThreadPoolExecutor
+
+    def one(job):
+        g, (fl, o, pflag) = job
+        has_syntax = "lexonly" not in g
+        d = os.path.join(run.work, "matrix", "%s-%d" % (os.path.basename(g), abs(hash((tuple(fl), o, pflag))) % 10**8))
+        os.makedirs(d, exist_ok=True)
+        open(os.path.join(d, "go.mod"), "w").write("module gen\n\ngo 1.24\n")
+        import shutil
+        shutil.copy(g, os.path.join(d, "g.bnf"))
+        args = list(fl)
+        if o != ".":
+            args += ["-o", o]
+        if pflag:
+            args += ["-p", "gen" if o == "." else "gen/ignored"]
+        try:
+            rc, out = C.sh([gocc] + args + ["g.bnf"], cwd=d, timeout=60)
+        except Exception as ex:
+            return (job, "timeout", "gocc did not terminate within 60 s: %s" % ex)
+        if rc != 0:
+            expected_fail = ("-no_lexer" in fl and "-debug_lexer" in fl) or ("-a" not in fl and "conflict" in g)
+            shutil.rmtree(d, ignore_errors=True)
+            return (job, None if expected_fail else "status", "unexpected status %d: %s" % (rc, out[-300:]))
+        od = os.path.join(d, o)
+        need = ["token/token.go", "token/context.go", "util/litconv.go", "util/rune.go"]
+        if "-no_lexer" not in fl:
+            need += ["lexer/lexer.go", "lexer/transitiontable.go", "lexer/acttab.go"]
+        if has_syntax:
+            need += ["parser/action.go", "parser/actiontable.go", "parser/context.go", "parser/gototable.go", "parser/parser.go", "parser/productionstable.go", "errors/errors.go"]
+        missing = [n for n in need if not os.path.exists(os.path.join(od, n)) or os.path.getsize(os.path.join(od, n)) == 0]
+        if missing:
+            shutil.rmtree(d, ignore_errors=True)
+            return (job, "missing", "status 0 but missing or empty: %s" % missing)
+        rc2, out2 = C.sh(["go", "build", "./..."], cwd=d, timeout=300)
+        shutil.rmtree(d, ignore_errors=True)
+        if rc2 != 0:
+            return (job, "compile", "status 0 but the packages do not compile: %s" % out2[-400:])
+        return (job, None, "")
+
+    jobs = [(g, c) for g in grammars for c in configs]
+    with ThreadPoolExecutor(max_workers=8) as ex:
+        for (g, (fl, o, pflag)), kind, msg in ex.map(one, jobs):
+            cases += 1
+            if kind and len(viol) < 12:
+                name = os.path.basename(g)[:-4]
+                vid = "C09 matrix %s: %s" % (kind, name) if "backquote" in name else "C09 matrix %s: %s flags=%s -o %s -p %s" % (kind, name, " ".join(fl), o, pflag)
+                viol.append({"id": vid, "what": msg, "input": {"grammar": g, "flags": fl, "o": o, "p": pflag}})
+            if len(samples) < 6 and cases % 29 == 1:
+                samples.append({"grammar": os.path.basename(g), "flags": fl, "o": o, "p_given": pflag})
+    ded = []
+    seen = set()
+    for v in viol:
+        if v["id"] not in seen:
+            seen.add(v["id"])
+            ded.append(v)
+    return {"name": "MATRIX flag subsets x output dir x -p: status 0 means complete, compilable output (finite configuration space, bounded grammars)", "cases": cases, "evaluations": cases,
+            "exhaustive_over_configurations": run.tier == "thorough", "violations": ded, "samples": samples}
+
+
+def c09_termination(run):
+    """bounded: every gocc run of the LEX and SYN scopes terminates (timeouts are failures of kind timeout)"""
+    rl = sweep_tool(run, "lexref", "tools/lexref")
+    rs = sweep_tool(run, "lrref", "tools/lrref")
+    viol = []
+    for tool, r in (("lexref", rl), ("lrref", rs)):
+        for x in r.get("fails") or []:
+            if x["kind"] == "timeout":
+                viol.append({"id": "%s timeout case %s" % (tool, x["id"]), "case_id": x["id"], "what": "gocc did not terminate within the limit", "input": {"grammar": x["grammar"], "tool": tool, "case": x["id"]}})
+    return {"name": "TERMINATION of every gocc run of the LEX and SYN scopes (bounded)", "cases": rl["cases"] + rs["cases"], "evaluations": rl["cases"] + rs["cases"], "violations": viol,
+            "samples": [{"lex_cases": rl["cases"], "syn_cases": rs["cases"], "timeouts": len(viol)}]}
+
+
+PROPS["C09"] = {
+    "level": "other",
+    "govc": [{"dir": "{repo}", "pkgs": ["./internal/lexer/items"], "contracts": [ITEMS_CONTRACTS], "prop": "C18"},
+             {"dir": "{repo}", "pkgs": ["./internal/util/md"], "contracts": [STDLIB, MD_CONTRACTS], "prop": "C19"},
+             {"dir": "{repo}", "pkgs": ["./internal/util"], "contracts": [STDLIB, UTIL_CONTRACTS], "prop": "C20"}],
+    "extra": [c09_matrix, c09_termination],
+    "trusted_base": COMMON_TRUSTED + ["go build as the judge of 'the packages compile'"],
+    "assumptions": [
+        "termination is proved (decreases clauses, unwinding assertions) only for the loops of the functions under contract listed in this evidence: AddRange, insertRange, loadMd, escapeCharVal (and, under C01/C07/C08, Scan, firstRecoveryState and the recovery skip loop); the fixed-point loops of the generator (FIRST sets, LR(1) closure/goto, lexer item closure) have no variant within reach: their termination is checked only on the bounded LEX and SYN scopes",
+        "'status zero means every required file is written, import paths resolve, packages compile' is decided by running the built gocc over the flag/output-directory/-p configuration space on four grammars (quick: a deterministic sample of 24 configurations; thorough: all 384), not by a contract on main",
+        "file header and action expressions are assumed to be valid Go, as the property states",
+    ],
+    "explanation": "Termination: decreases obligations discharged by govc for the loops under contract; every other loop of the generator is covered only by the bounded scopes (every gocc run of the LEX/SYN sweeps must finish). Complete, compilable output: finite configuration matrix executed with the real binary and go build, on grammars with hostile spellings. This property is mostly outside the reach of function contracts here; the level is 'other' and the split is stated.",
 }
